@@ -193,7 +193,8 @@ def run_impl(case):
         "match_probability": [p / DEN for _, _, p in e]})
     dp = lk.table_management.register_table_predict(pred, overwrite=True)
     out = lk.clustering.cluster_using_single_best_links(
-        dp, duplicate_free_datasets=list(case["dfs"]), threshold_match_probability=case["thr"] / DEN)
+        dp, duplicate_free_datasets=list(case["dfs"]),
+        threshold_match_probability=None if case.get("no_threshold") else case["thr"] / DEN)
     final = [(r["cluster_id"], r["source_dataset"], r["unique_id"]) for r in out.as_record_dict()]
     return trace, final
 
@@ -345,6 +346,12 @@ def oracle(case, final):
                     todo.append(y)
         if len(seen) != len(ms):
             problems.append(("connectivity", {"cluster": c, "members": sorted(ms), "reached": sorted(seen)}))
+    strictly_ranked = tie_free(case) or (case.get("_order_modes") == ["tiebreak"] and not has_dup_pairs(case))
+    if strictly_ranked:                       # C12_cluster_id_is_min
+        for c, ms in members.items():
+            least = min(composite(ds, u) for ds, u in ms)
+            if c != least:
+                problems.append(("cluster_id_not_least_member", {"cluster": c, "least_member": least}))
     if tie_free(case):
         for i, j, p in case["edges"]:
             a, b = nodes[i], nodes[j]
@@ -567,6 +574,22 @@ def correspondence(ctx: Ctx):
                 c = dict(base)
                 c["dfs"] = list(sub)
                 one(c)
+    # both thresholds are documented as optional: without one every edge is used (= threshold 0
+    # for probabilities).  Before the wrapper selected match_probability unconditionally this
+    # raised a SQL binder error (loud failure, counted, outside the property).
+    raised = 0
+    for backend in ("duckdb", "sqlite"):
+        for _ in range(6 if quick else 60):
+            c = gen_case(ctx.rng, backend, ties=False)
+            c["thr"] = 0
+            c["no_threshold"] = True
+            try:
+                one(c)
+            except Exception as e:  # noqa: BLE001
+                if "match_probability" not in str(e):
+                    raise
+                raised += 1
+    ctx.cov["no_threshold_calls_raising_sql_error"] = raised
     # the witness of C12_connected_ties_refuted: try to realise it on the engines
     realised = None
     perms = 6 if quick else 120
